@@ -232,3 +232,20 @@ package tcp
 //@ func (*endpoint).resetKeepaliveTimer props C05 C04
 //@   requires e != nil && e.keepalive.timer.timer != nil
 //@   modifies e.keepalive.unacked, e.keepalive.timer.state, e.keepalive.timer.target, e.keepalive.timer.runtimeTarget
+
+// sendData: the congestion window is only ever lowered here (to the initial window after an
+// idle period, never during recovery); every segment without FIN that is emitted is counted
+// in outstanding, and outstanding is raised only while it is below the window. The two
+// internal assertion panics (FIN not last / FIN with data) are not proved unreachable here.
+//@ func (*sender).sendData props C05 C04
+//@   requires sndOK(s) && 0 <= s.outstanding && s.outstanding <= 1 << 40 && s.sndCwnd <= 1 << 40
+//@   panics_when true
+//@   ensures s.sndCwnd == old(s.sndCwnd) || (s.sndCwnd == InitialCwnd && old(s.sndCwnd) > InitialCwnd && !old(s.fr.active))
+//@   ensures s.outstanding >= old(s.outstanding) && (s.outstanding == old(s.outstanding) || s.outstanding <= s.sndCwnd)
+//@   ensures ghost(sentNonFin) - old(ghost(sentNonFin)) == s.outstanding - old(s.outstanding)
+//@   loop 1 invariant s.outstanding >= old(s.outstanding) && (s.outstanding == old(s.outstanding) || s.outstanding <= s.sndCwnd) && s.outstanding <= 1 << 41
+//@   loop 1 invariant ghost(sentNonFin) - old(ghost(sentNonFin)) == s.outstanding - old(s.outstanding)
+//@   modifies s.sndCwnd, s.outstanding, s.sndNxt, s.writeNext, s.writeList.tail, s.lastSendTime, s.rttMeasureTime, s.maxSentAck
+//@   modifies s.resendTimer.state, s.resendTimer.target, s.resendTimer.runtimeTarget, s.ep.rcv.rcvAcc
+//@   modifies s.ep.keepalive.unacked, s.ep.keepalive.timer.state, s.ep.keepalive.timer.target, s.ep.keepalive.timer.runtimeTarget
+//@   modifies structfamily(segment), elemfamily(buffer.View), structfamily(stack.referencedNetworkEndpoint), ghost(sentNonFin), ghost(sentFin)
